@@ -396,20 +396,32 @@ def findSidecar (fs : FS) (c : Cfg) (filename : Bytes) : List Bytes → Traced (
         | .file id => (some (filename ++ suf, id, ae), [filename ++ suf, filename ++ suf])
         | _ => withTrace (filename ++ suf) (findSidecar fs c filename rest)
 
-/-- `getEtagFromFile(fileSystem, name)`: the first of `name + ext` that can be read; `none` = a
-    read error other than "does not exist" (ServeHTTP returns it: 500); `some none` = no etag file.
-    Note that the etag file's own name is not tested against the hide list. -/
-def findEtag (fs : FS) (name : Bytes) : List Bytes → Traced (Option (Option (Bytes × Nat)))
+/-- the etag-file lookup before the etag file's own name was tested against the hide list.
+    Kept for `Props.etag_honours_hide_old_code_fails`. -/
+def findEtagOld (fs : FS) (name : Bytes) : List Bytes → Traced (Option (Option (Bytes × Nat)))
   | [] => (some none, [])
   | ext :: rest =>
     match fs (name ++ ext) with
-    | .missing => withTrace (name ++ ext) (findEtag fs name rest)
+    | .missing => withTrace (name ++ ext) (findEtagOld fs name rest)
     | .file id => (some (some (name ++ ext, id)), [name ++ ext])
     | _ => (none, [name ++ ext])
 
+/-- `getEtagFromFile(fileSystem, name, filesToHide)`: the first of `name + ext` that is not hidden
+    and can be read; `none` = a read error other than "does not exist" (ServeHTTP returns it:
+    500); `some none` = no etag file -/
+def findEtag (fs : FS) (c : Cfg) (name : Bytes) : List Bytes → Traced (Option (Option (Bytes × Nat)))
+  | [] => (some none, [])
+  | ext :: rest =>
+    if c.hidden (name ++ ext) then findEtag fs c name rest
+    else
+      match fs (name ++ ext) with
+      | .missing => withTrace (name ++ ext) (findEtag fs c name rest)
+      | .file id => (some (some (name ++ ext, id)), [name ++ ext])
+      | _ => (none, [name ++ ext])
+
 /-- "try to get the etag from pre computed files if an etag suffix list was provided" -/
 def withEtagOf (fs : FS) (c : Cfg) (name : Bytes) (o : Outcome) : Traced Outcome :=
-  match findEtag fs name c.etagExt with
+  match findEtag fs c name c.etagExt with
   | (none, t) => (.serverError, t)
   | (some none, t) => (o, t)
   | (some (some (n, id)), t) => (.withEtag o n id, t)
